@@ -154,6 +154,9 @@ def units(tier):
             add(a + (".alias%d" % al if al else ""), "h_" + a, f, ["VF_ALIAS=%d" % al],
                 "%s equals its textbook sum of products%s" % (s, " (aliased operands)" if al else ""), [s])
     for n in (2, 3, 4):
+        if n == 4:
+            add("lemma.dettr4", "h_lemma_dettr4", clause="det(transpose A) == det(A), 4x4", fns=[su["det44"], su["tr44"]])
+            continue   # det(A*B) == det(A)*det(B) at 4x4: z3's som rewriter runs out of memory (12 GB) - not claimed
         add("lemma.detmul%d" % n, "h_lemma_detmul%d" % n, clause="det(A*B) == det(A)*det(B), %dx%d" % (n, n), fns=[su["det%d%d" % (n, n)], su["mm%d%d" % (n, n)]], timeout=600)
         add("lemma.dettr%d" % n, "h_lemma_dettr%d" % n, clause="det(transpose A) == det(A), %dx%d" % (n, n), fns=[su["det%d%d" % (n, n)], su["tr%d%d" % (n, n)]])
     for n in (3, 4):
@@ -171,6 +174,7 @@ def extra_coverage(units, tier):
 
 NOT_COVERED = [
     "numeric size of the rounding bound ('within a rounding bound proportional to the sum of absolute products'): classical, not machine-checked",
+    "det(A*B) == det(A)*det(B) for 4x4 (proved for 2x2 and 3x3; the 4x4 expansion exhausts z3's sum-of-monomials rewriter)",
     "IEEE bit-identity of the operator / static / member spellings: see thorough tier (cvc5)",
 ]
 ASSUMPTIONS = [
